@@ -301,7 +301,7 @@ var hops = []struct {
 func TestC20Propagation(t *testing.T) {
 	rep := ev.NewReport("C20", "propagation")
 	sigma := []byte{'a', 'Z', '-', '.', '|', ':', '/', ' ', 0x7f, 0xc3}
-	rep.Bound = fmt.Sprintf("org ids: all strings of length <=3 (thorough 4) over %q plus 150/151-byte ids; every chain of 1..4 hops over {HTTP inject/extract, HTTP through AuthenticateUser, gRPC inject/extract, gRPC client+server interceptors}; absent / empty / conflicting / multi-valued cases", string(sigma))
+	rep.Bound = fmt.Sprintf("org ids: all strings of length <=3 (thorough 4) over %q plus 150/151-byte ids; every chain of 1..4 hops over {HTTP inject/extract, HTTP through AuthenticateUser, gRPC inject/extract, gRPC client+server interceptors}; absent (also: a context carrying only a user id) / empty / conflicting / multi-valued cases", string(sigma))
 	rep.Rule = "the org id placed in a context arrives byte-identical after every hop; an empty or absent id is rejected with ErrNoOrgID at an HTTP hop and never replaced by a default; 0 or >=2 gRPC metadata values are rejected; a conflicting pre-existing header/metadata value is refused; distinct_nontrivial = (org id, chain) pairs that went through >=2 hops"
 	deadline := ev.Deadline(10 * time.Minute)
 	var ids []string
@@ -385,6 +385,30 @@ func TestC20Propagation(t *testing.T) {
 	for _, h := range hops {
 		_, err := h.f(bg)
 		expect("no org id in context through "+h.name, err, user.ErrNoOrgID)
+	}
+	// a context that carries the package's OTHER identifier (user id) but no org id is still a context without org id
+	for _, c := range []struct {
+		name string
+		ctx  context.Context
+	}{{"a user id only", user.InjectUserID(bg, "u")}, {"an empty user id only", user.InjectUserID(bg, "")}, {"two user ids in its lineage", user.InjectUserID(user.InjectUserID(bg, "u"), "v")}} {
+		_, err := user.ExtractOrgID(c.ctx)
+		expect("ExtractOrgID on a context with "+c.name, err, user.ErrNoOrgID)
+		for _, h := range hops {
+			_, err := h.f(c.ctx)
+			expect("context with "+c.name+" through "+h.name, err, user.ErrNoOrgID)
+		}
+	}
+	// and the user id never disturbs the org id, whichever is injected first
+	for _, id := range []string{"a", "a|b", "t:k=v"} {
+		for i, c := range []context.Context{user.InjectUserID(user.InjectOrgID(bg, id), "u"), user.InjectOrgID(user.InjectUserID(bg, "u"), id)} {
+			rep.Eval(1)
+			if got, err := user.ExtractOrgID(c); err != nil || got != id {
+				rep.Violate(fmt.Sprintf("prop:case:both:%s:%d", id, i), fmt.Sprintf("org id %q injected next to a user id (order %d) is extracted as %q, %v", id, i, got, err), nil)
+			}
+			if got, err := user.ExtractUserID(c); err != nil || got != "u" {
+				rep.Violate(fmt.Sprintf("prop:case:both-user:%s:%d", id, i), fmt.Sprintf("user id injected next to org id %q (order %d) is extracted as %q, %v", id, i, got, err), nil)
+			}
+		}
 	}
 	_, _, err := user.ExtractOrgIDFromHTTPRequest(&http.Request{Header: http.Header{}})
 	expect("HTTP request without header", err, user.ErrNoOrgID)
